@@ -32,6 +32,11 @@ func (obj Symbol) Readably(b []byte, p *Printer) []byte {
 	}
 	for _, c := range []byte(obj) {
 		if needPipeMap[c] == 'x' {
+			if c == '/' && !strings.ContainsAny(string(obj), "0123456789") {
+				// Only a name that could be taken for a ratio needs
+				// bars for a slash: / and /= are plain symbols.
+				continue
+			}
 			b = append(b, '|')
 			b = append(b, p.caseName(string(obj))...)
 			return append(b, '|')
